@@ -65,6 +65,10 @@ def shards(tier):
             for p in range(nd):
                 for n in ([0, 3] if tier == "quick" else [0, 1, 2, 3]):
                     out.append({"nd": nd, "p": p, "v": v, "n": n, "vk": "fi"[k % 2], "k": k}); k += 1
+    # every history variant on a sorted axis of either direction (the cycling above meets only some of these pairs in the quick tier)
+    for order in ("inc", "dec"):
+        for var in D.VARIANTS[1:]:
+            out.append({"nd": 1 + k % 2, "p": 0, "v": ("if"[k % 2], order), "n": 4, "vk": "f", "k": k, "var": var}); k += 1
     for k2 in range(4):
         out.append({"like": k2})
     return out
@@ -84,7 +88,7 @@ def _spec(sh):
         else:
             kk, ll = o.pop(0)
             labels.append(ll); kinds.append(kk)
-    return D.spec(NAMES[:sh["nd"]], labels, kinds, vk=sh["vk"], var=D.VARIANTS[sh["k"] % len(D.VARIANTS)] if sh["n"] else "fresh",
+    return D.spec(NAMES[:sh["nd"]], labels, kinds, vk=sh["vk"], var=sh.get("var") or (D.VARIANTS[sh["k"] % len(D.VARIANTS)] if sh["n"] else "fresh"),
                   attrs={"units": "K"}, axattrs={NAMES[sh["p"]]: {"long_name": "coord"}}, enc="big" if (sh["k"] // 2) % 2 == 0 else None)
 
 
